@@ -156,16 +156,47 @@ class Net:
             self.waiting.setdefault(addr, []).append(frames)
 
 
+def _endpoint_up(addr):
+    p = K.net.bound.get(addr)
+    return p is not None and p.exitcode is None and p.killed_at is None
+
+
 class FSocket:
     def __init__(self, kind):
         self.kind, self.addr, self.link = kind, None, None
         self.reply = []
         self.peer = None
+        self.linger_ms = None       # ZeroMQ default: infinite
+        self.unflushed = None       # addresses a message was queued for while nobody was there to take it
 
-    def set(self, *a):
-        pass
+    def set(self, opt=None, val=None, *a):
+        if opt == 17:
+            self.linger_ms = val
 
     setsockopt = set
+
+    def __del__(self):
+        # ZeroMQ semantics of dropping a socket + its context (what `comms.callback` does after every send): the caller blocks
+        # until queued messages could be handed to a peer, or LINGER expires - for ever if LINGER was never set
+        try:
+            if not self.unflushed or K is None or K.end is not None:
+                return
+            c = K.cur()
+            if c is None or c.killed or c.state == "done":
+                return
+            addrs = self.unflushed
+
+            def flushed():
+                return all(_endpoint_up(a) for a in addrs)
+            if flushed():
+                return
+            K.probe("zmq_linger_wait")
+            inf = self.linger_ms is None or self.linger_ms < 0
+            if inf:
+                K.probe("zmq_linger_wait_infinite")
+            K.block(flushed, None if inf else int(self.linger_ms) * 1_000_000, "zlinger", tuple(sorted(addrs)))
+        except BaseException:  # noqa  (nothing may escape a finaliser; a killed thread raises again at its next seam)
+            pass
 
     def close(self, *a):
         pass
@@ -200,6 +231,10 @@ class FSocket:
             lat = K.ch.uniform(*K.net.cfg.get("lat", (50_000, 50_000)))
             K.at(K.now + lat, lambda: peer.reply.append(frames))
         else:
+            if self.kind == 8 and not _endpoint_up(self.addr):
+                if self.unflushed is None:
+                    self.unflushed = set()
+                self.unflushed.add(self.addr)
             K.net.send(self.link, self.addr, frames)
         K.step("zsend", self.addr, len(frames))
 
@@ -584,6 +619,7 @@ class FakeFS:
 
     def __init__(self, kernel):
         self.files, self.nwrite, self.nread, self.nopen_r = {}, 0, 0, 0
+        self.dirs = set()
         self.plan = {}
         self.tmp = itertools.count()
 
@@ -599,6 +635,7 @@ class FakeFS:
 class FakeTmpDir:
     def __init__(self, *a, **k):
         self.name = f"/simtmp/{next(K.fs.tmp)}"
+        K.fs.dirs.add(self.name)
 
     def cleanup(self):
         pass
@@ -734,6 +771,47 @@ def install():
         def __new__(cls, *a, **kw):
             return FakeTmpDir(*a, **kw) if insim() else real_tmpdir(*a, **kw)
     tempfile.TemporaryDirectory = TmpDisp
+
+    # the in-memory file system is also what os.* sees for its paths (a refactor that asks os.path.exists() about a spill
+    # file must get the simulated answer, not the real disk's)
+    def _simpath(p):
+        return isinstance(p, (str, bytes, os.PathLike)) and str(os.fspath(p)).startswith("/simtmp")
+
+    def fsdisp(real, fake):
+        def f(p, *a, **kw):
+            return fake(str(os.fspath(p)), *a, **kw) if insim() and _simpath(p) else real(p, *a, **kw)
+        f.__name__ = getattr(real, "__name__", "f")
+        return f
+
+    def _isdir(p):
+        return any(k.startswith(p.rstrip("/") + "/") for k in K.fs.files) or p.rstrip("/") in K.fs.dirs
+
+    def _remove(p):
+        if p not in K.fs.files:
+            raise FileNotFoundError(p)
+        del K.fs.files[p]
+        K.step("fs.remove", p)
+
+    def _listdir(p):
+        pre = p.rstrip("/") + "/"
+        return sorted({k[len(pre):].split("/")[0] for k in K.fs.files if k.startswith(pre)})
+
+    def _rename(src, dst):
+        if src not in K.fs.files:
+            raise FileNotFoundError(src)
+        K.fs.files[str(os.fspath(dst))] = K.fs.files.pop(src)
+        K.step("fs.rename", src)
+    os.path.exists = fsdisp(os.path.exists, lambda p: p in K.fs.files or _isdir(p))
+    os.path.isfile = fsdisp(os.path.isfile, lambda p: p in K.fs.files)
+    os.path.isdir = fsdisp(os.path.isdir, _isdir)
+    os.path.getsize = fsdisp(os.path.getsize, lambda p: len(K.fs.files[p]))
+    os.remove = fsdisp(os.remove, _remove)
+    os.unlink = fsdisp(os.unlink, _remove)
+    os.listdir = fsdisp(os.listdir, _listdir)
+    os.makedirs = fsdisp(os.makedirs, lambda p, *a, **kw: K.fs.dirs.add(p.rstrip("/")))
+    os.mkdir = fsdisp(os.mkdir, lambda p, *a, **kw: K.fs.dirs.add(p.rstrip("/")))
+    os.rename = fsdisp(os.rename, _rename)
+    os.replace = fsdisp(os.replace, _rename)
 
     # now import cascade and do the targeted module-attribute patches
     import cascade.shm.api, cascade.executor.executor, cascade.executor.runner.entrypoint  # noqa
